@@ -19,7 +19,7 @@ fn items_of(sym: u8, nsym: u8) -> Vec<u64> {
     if sym == nsym - 1 {
         (BURST_START..BURST_START + BURST_LEN as u64).collect()
     } else {
-        vec![sym as u64 + 1]
+        vec![sym as u64] // item 0 is included on purpose (its pass-through hash is 0)
     }
 }
 
@@ -66,7 +66,7 @@ fn run_stream(kind: &Kind, stream: &[u8], nsym: u8, mode: &Mode) -> Obs {
                 if s == nsym - 1 {
                     do_op(&mut inst, &Op::Burst(BURST_START, BURST_LEN))?;
                 } else {
-                    do_op(&mut inst, &Op::Item(s as u64 + 1))?;
+                    do_op(&mut inst, &Op::Item(s as u64))?;
                 }
                 if *mode == Mode::ItemWiseWithEmptySlices && !kind.has_end {
                     let _ = inst.apply(&Op::Slice(vec![])); // reports an error, must change nothing
@@ -101,7 +101,12 @@ fn base_name(kind: &Kind) -> String {
 /// for hash-storing sketches: the positions of the observation that hold item hashes, and the hash function
 fn stored_hash_check(kind: &Kind, m: usize, obs: &[u64], items: &BTreeSet<u64>) -> Option<String> {
     let name = &kind.name;
-    let (range, hashes): (std::ops::Range<usize>, BTreeSet<u64>) = if name.starts_with("SuperMinHash2<u64>") {
+    let nohash = |x: &u64| BuildHasherDefault::<probminhash::nohasher::NoHashHasher>::default().hash_one(x);
+    let (range, hashes): (std::ops::Range<usize>, BTreeSet<u64>) = if name.starts_with("SuperMinHash2<u64,NoHash>") {
+        (0..m, items.iter().map(nohash).collect())
+    } else if name.starts_with("OptDensMinHash<f64,NoHash>") || name.starts_with("RevOptDensMinHash<f64,NoHash>") {
+        (m..2 * m, items.iter().map(nohash).collect())
+    } else if name.starts_with("SuperMinHash2<u64>") {
         (0..m, items.iter().map(|x| BuildHasherDefault::<FnvHasher>::default().hash_one(x)).collect())
     } else if name.starts_with("SuperMinHash2<u32") {
         (0..m, items.iter().map(|x| BuildHasherDefault::<XxHash32>::default().hash_one(x)).collect())
@@ -268,12 +273,12 @@ pub fn run(ctx: &Ctx) -> i32 {
         "samples": [
             {"sketcher": "SuperMinHash<f64> m=7", "stream_symbols": [2, 0, 2, 4, 0], "chunking": "slices [2,0] [2,4,0]", "reference": "items {1,3,burst} streamed once item-wise"},
             {"sketcher": "RevOptDensMinHash<f32> m=64", "stream_symbols": [1, 1, 3], "modes": ["item-wise + end_sketch", "one sketch_slice"]},
-            {"symbols": "0..3 -> items 1..4, last symbol -> burst of 12 fresh items (100..111)"}
+            {"symbols": "0..3 -> items 0..3, last symbol -> burst of 12 fresh items (100..111)"}
         ],
         "exhaustive": true,
         "evaluations": execs,
         "distinct_nontrivial": distinct,
-        "rule": "for SuperMinHash f32/f64, SuperMinHash2 u32/u64, SetSketcher u8/u16/u32 (3 parameter sets) and both densified sketchers f32/f64, sizes {1,2,3,7,64} (+5,16,200): every stream of length 1..5 (6) over 5 (6) symbols (4-5 items and a burst of 12 fresh items), i.e. every order and every repetition, under item-wise calls, every chunking into slice calls (all 2^(L-1) cut patterns) and item-wise calls interleaved with empty slices; densified sketchers: item-wise + end_sketch versus one slice; all streams with the same set of distinct items must give the bit-identical observation (all views); stored hashes must be hashes of streamed items; distinct = distinct sketches (one per item set and kind)",
+        "rule": "for SuperMinHash f32/f64, SuperMinHash2 u32/u64, SetSketcher u8/u16/u32 (3 parameter sets) and both densified sketchers f32/f64 (Fnv hasher; plus no-op-hasher kinds where item 0 hashes to 0), sizes {1,2,3,7,64} (+5,16,200): every stream of length 1..5 (6) over 5 (6) symbols (4-5 items and a burst of 12 fresh items), i.e. every order and every repetition, under item-wise calls, every chunking into slice calls (all 2^(L-1) cut patterns) and item-wise calls interleaved with empty slices; densified sketchers: item-wise + end_sketch versus one slice; all streams with the same set of distinct items must give the bit-identical observation (all views); stored hashes must be hashes of streamed items; distinct = distinct sketches (one per item set and kind)",
         "sketcher_kinds": kinds.len(),
         "item_set_groups": groups,
         "per_kind": per_kind,
